@@ -324,6 +324,7 @@ class TxModel:
         self.native_scripts = []  # encoder objects of native scripts in the witness set
         self.redeemer_format = "list"
         self.set_tags = False
+        self.datum_style = "haskell"
         self.langs = set()
 
     # -------------------------------------------------------------- ordering rules of the ledger
@@ -359,9 +360,10 @@ class TxModel:
     def _set(self, items):
         return Tag(258, list(items)) if self.set_tags else list(items)
 
-    @staticmethod
-    def datum_bytes(d):
-        return cbor.data_dumps(d)
+    def datum_bytes(self, d):
+        # "foreign": valid CBOR that is not in the Haskell / pallas round-trip form (another tool
+        # chain wrote the datum): hashes commit to exactly these bytes
+        return cbor.data_dumps_foreign(d) if self.datum_style == "foreign" else cbor.data_dumps(d)
 
     def enc_value(self, out):
         if not out["assets"]:
@@ -706,6 +708,7 @@ def gen_tx(rng, pool, opts=None):
     m = TxModel()
     m.net = rng.below(2)
     m.set_tags = rng.chance(1, 2)
+    m.datum_style = "foreign" if rng.chance(1, 3) else "haskell"
     m.redeemer_format = rng.pick(["list", "map", "map", "list_indef"])
     allowed_langs = o.get("langs") or rng.pick([["v3"], ["v3"], ["v2"], ["v1"], ["v2", "v3"], ["v1", "v2"], ["v1", "v2", "v3"], ["v1", "v3"]])
     n_uses = o.get("n_uses") or rng.range(1, 6)
